@@ -128,13 +128,54 @@ T3 = [
  ("r3-c19-2", "C19", "row skipping stops at the first skipped row", "a skip_rows window with a finite upper bound below the row count", ["C19"], ""),
 ]
 
+T4 = [
+ ("r4-c01-1", "C01", "evaluate_decision takes the dot product over the input's memory-order slice", "an owned input array with stride -1 (after invert_axis), dimension >= 2", ["C01", "C09"], "same mechanism as r4-c09-1; missed at first: every input was a standard-layout array; conformance now also evaluates each input stored with stride -1"),
+ ("r4-c01-2", "C01", "partial_leaky_ReLU decides on (1-alpha) x <= 0", "a slope greater than 1", ["C01", "C17"], "missed by C01 at first (C17 caught it): the slopes of the C01 alphabet were 0.5 and -1; 2.0 was added"),
+ ("r4-c02-1", "C02", "the graft sweeps the decisions of g in arena index order and skips those whose parent has no image yet", "a right operand in which a decision is stored before its parent (re-used arena index), i.e. a decision at depth >= 2", ["C02"], "missed at first, two reasons: right operands had decisions at depth <= 1 only, and the 're-used indices' layout handed the freed slots out in ascending order after all. Deeper right operands were added, the layout now dissolves a decoy chain from the top so that every node is stored before its parent, and ./check selftest verifies the layouts' characteristics"),
+ ("r4-c02-2", "C02", "single-coordinate predicates read 'row i' of the terminal matrix from its raw buffer", "a column-major terminal matrix of at least 2x2 in f", ["C02"], ""),
+ ("r4-c03-1", "C03", "is_edge_feasible drops an edge whose LP witness it cannot verify", "coefficients of about 1e6 and a sharp wedge, so that the LP vertex misses the absolute 1e-8 tolerance and 20 mirror rounds do not repair it", ["C03", "C11"], "missed by C03 at first (C11 caught it through a displaced witness): a family of sharp wedges with rows scaled by up to 1e8, grafted below a non-root terminal, was added"),
+ ("r4-c03-2", "C03", "&f op g (borrowed left, owned right) is evaluated as g op f", "that ownership variant with - or /", ["C07"], "not reported by C03: its reference track uses the same operator implementation, so both tracks change alike; operand order and ownership variants are C07's subject"),
+ ("r4-c04-1", "C04", "composition classifies the nodes of the right operand in a table sized by len()", "a right operand with a freed slot below a live index (after its own pruning)", ["C04", "C03"], "missed at first: the 'eliminated' right operands of the alphabet had no infeasible path, hence no hole; an eliminated from_poly over an empty polytope was added"),
+ ("r4-c04-2", "C04", "the keep-last rule is judged by label + 1 == K", "a grafted decision whose only child hangs on label 0, below an infeasible path", ["C04", "C03"], ""),
+ ("r4-c05-1", "C05", "mirror_points accepts a candidate when the smallest slack (f64::min fold) is non-negative", "a NaN slack: NaN start coordinate", ["C05"], "missed at first: start points were finite; NaN start points were added (+-1e308 were tried and withdrawn, see DESIGN.md)"),
+ ("r4-c05-2", "C05", "witnesses are taken from the closest ancestor when the parent is Feasible without witness", "a node in state Feasible (LP answered 'unbounded') above later nodes, and an ancestor witness on the other side of the skipped edge", ["C05", "C11"], "missed by C05 at first (C11 caught it): C05's fault stage now also injects Unbounded"),
+ ("r4-c06-1", "C06", "remove_axes keeps cached witnesses restricted to the kept axes", "eliminate, remove_axes that empties a region on the slice, eliminate again", ["C06", "C05"], "missed by C06 at first (C05 caught it): remove_axes pipelines were added to C06"),
+ ("r4-c06-2", "C06", "phase_inh hands down the parent's whole witness list (as r3-c05-2)", "a root cache with several witnesses", ["C06", "C05"], "missed by C06 at first (C05 caught it): roots seeded with several sample inputs were added to C06"),
+ ("r4-c07-1", "C07", "unary_op_inplace visits 'for idx in 0..len()'", "a tree with holes and a terminal at an index >= len(), e.g. after infeasible_elimination", ["C07"], "missed at first: negation and the tree-affine forms only saw fresh trees; every 2nd such operand (negation: every one, both ways) now goes through infeasible_elimination first, in all storage layouts"),
+ ("r4-c07-2", "C07", "path half-spaces are cached between is_edge_feasible calls, keyed by the parent's arena index", "an index freed by a forwarding and re-used under a kept-last node", ["C07", "C03"], ""),
+ ("r4-c08-1", "C08", "reduce returns early unless two index-adjacent terminals are equal", "equal sibling terminals that are not neighbours among the terminals in arena order", ["C08"], "missed at first: in every layout siblings were stored next to each other; a fifth layout (level by level, highest label first) was added to all tree checks"),
+ ("r4-c08-2", "C08", "sibling terminals are compared row by row with a truncating zip", "sibling terminals with different numbers of rows, one a prefix of the other", ["C08"], "missed at first: all terminals of a tree had one shape; a family with 0-, 1- and 2-row terminals was added (such trees can be built through the public node API)"),
+ ("r4-c09-1", "C09", "evaluate_decision re-wraps the input through as_slice_memory_order", "an owned input with stride -1, dimension >= 2", ["C09", "C01"], "missed at first, see r4-c01-1"),
+ ("r4-c09-2", "C09", "PolyhedraGen::skip_subtree also pops the current half-space", "skip_subtree twice at a node of depth >= 2 that still has a sibling to come", ["C09"], ""),
+ ("r4-c10-1", "C10", "solve_linprog re-checks its optimal point with contains() and answers Infeasible otherwise", "rows scaled by 100 and more around a point 1e5 and more from the origin", ["C10"], "missed at first: the grid is small integers around the origin; a family of polytopes containing a unit ball, 2^14..2^20 from the origin with rows scaled by up to 1e6, was added (only the verdict is judged there)"),
+ ("r4-c10-2", "C10", "chebyshev_center folds the row norm with hypot, seeded with the signed first entry", "input dimension 1 and a negative coefficient", ["C10"], ""),
+ ("r4-c11-1", "C11", "after an 'unbounded' answer phase_two re-solves inside the box |x| <= 1e6 and marks the node infeasible if that fails", "an Unbounded fault at a node whose region lies beyond 1e6", ["C11"], "missed at first: all regions were near the origin; programs with thresholds 5e6 / 7e6 were added"),
+ ("r4-c11-2", "C11", "on a solver error is_edge_feasible lets mirror_points over the parent's cached witnesses decide", "cached witnesses from an earlier elimination, a parent that is not node 0, an Error fault, a child region without interior", ["C11"], ""),
+ ("r4-c12-1", "C12", "a hand-written Clone for Tree compacts the arena", "a clone of an arena with a hole in front of a live node", ["C12", "C04"], "C12 crashed (exit 101) instead of reporting: the explorer itself works on clones, and the reference model indexed a dangling link. clone() is now an operation with its own oracle (same arena, same future indices), checked for every state before anything else"),
+ ("r4-c12-2", "C12", "child_mut borrows the two nodes in ascending index order and returns them as (node, child)", "a child stored in a re-used slot below its parent's index", ["C12"], "missed at first: only the mutating operations were driven; every new state now has its read and write accessors (child, child_mut, parent, parent_mut, children, tree_node2_mut, terminals_mut, ...) compared with the arena, with one distinct value per node and writes through the returned references"),
+ ("r4-c13-1", "C13", "add_child_node checks ChildExists after the slab insertion and leaves an orphan", "a rejected add on an occupied slot", ["C12"], "not reported by C13: the state after the rejected call violates the C12 invariant (C12 reports it as 'Err but changed the tree') and C13 only traverses arenas that satisfy it"),
+ ("r4-c13-2", "C13", "remove_all_descendants clears the child slots through retain_children, which never sets isleaf", "a direct remove_all_descendants on a node with children", ["C13", "C12"], ""),
+ ("r4-c14-1", "C14", "distance() uses signum(x) * inf for zero-normal rows", "a zero row with bias -0.0", ["C14"], "missed at first: zero rows had biases -2..2 but never -0.0; such systems were added"),
+ ("r4-c14-2", "C14", "contains() is rewritten as !any(x < -1e-8)", "a point with a NaN coordinate, or an infinite one meeting a zero coefficient", ["C14"], "missed at first: all points were finite; points with NaN / +-inf coordinates were added, judged only where some row is violated or undefined whatever the ambiguous terms are taken to be"),
+ ("r4-c15-1", "C15", "remove_duplicate_rows compares directions by the inner product of the unit vectors", "two rows with equal normalised bias whose directions are between 2e-16 and 2e-8 rad apart", ["C15"], "missed at first: directions in the grid differ by O(1) or not at all; rows x <= 1 against x + 2^-27 y <= 1 were added"),
+ ("r4-c15-2", "C15", "normalize's 'negligible' guard compares the squared norm with epsilon", "rows with norm between 2.2e-16 and 1.5e-8 whose raw entries differ by at most 2.2e-16", ["C15"], "missed at first: the tiny rows of the grid were far below the threshold (2^-60); rows with entries 2^-51 and 2^-52 were added"),
+ ("r4-c16-1", "C16", "from_row_iter copies contiguous source rows with copy_from_slice(as_slice_memory_order())", "rows with a negative stride (mirrored views, owned arrays after invert_axis)", ["C16"], "missed at first: storage was row- or column-major; a third storage (mirrored buffer with inverted axes, equal as an array) was added for every operand"),
+ ("r4-c16-2", "C16", "remove_zero_columns tests the squared column norm", "a column whose non-zero entries are below 1.5e-162", ["C16"], "missed at first: entries were of ordinary size; matrices with entries +-2^-600 and 2^600 were added (structural checks only)"),
+ ("r4-c17-1", "C17", "find_terminal gives up after usize::BITS nodes", "a chain-shaped tree with more than 64 levels (inf_norm dim >= 32, class_characterization dim >= 65, from_poly with >= 64 rows)", ["C17"], "missed at first: dimensions were <= 5. Chains of 66-72 levels were added; their faces cannot be enumerated, so every root-to-terminal path is visited instead (interior point by exact LP, real evaluator and definition compared there)"),
+ ("r4-c17-2", "C17", "from_poly removes 'duplicate' rows first", "two rows one unit in the last place apart, the looser one first", ["C17"], "missed at first: rows differed by O(1); rows x <= 1 + 2^-52 next to x <= 1 were added"),
+ ("r4-c18-1", "C18", "read_layers rebuilds the weight matrix from its raw buffer", "a weights entry stored column-major (fortran_order: True), at least 2x2 and not symmetric", ["C18"], "missed at first: every entry was written row-major; every 3rd file is now written once more with column-major weight entries"),
+ ("r4-c18-2", "C18", "read_layers looks linear entries up under a three-digit index", "a file whose entry indices have another width", ["C18"], "missed at first: all files used three digits; widths 1, 2 and 4 were added"),
+ ("r4-c19-1", "C19", "write_inequality multiplies by the reciprocal of the scale", "a scale such as 49 or 1e9 where x * (1/s) and x / s differ in the last place and the difference crosses a rounding tie of the printed digits", ["C19"], ""),
+ ("r4-c19-2", "C19", "write_float builds sign and digits into one string and emits it with Formatter::pad", "any explicit precision", ["C19"], ""),
+]
+
 extra = {}
 ep = os.path.join(ROOT, "tools", "seed_table_extra.json")
 if os.path.exists(ep):
     extra = json.load(open(ep))
 
 rows = []
-for sid, prop, descr, needs, caught, note in T + T2 + T3:
+for sid, prop, descr, needs, caught, note in T + T2 + T3 + T4:
     if sid in extra:
         e = extra[sid]
         descr, needs, caught, note = e["descr"], e["needs"], e["caught"], e.get("note", "")
